@@ -43,6 +43,8 @@ var c19Calls = map[string]int{
 	"ResetQuota":                        33,
 	"addPodIfNotPresent":                34,
 	"removePodIfPresent":                35,
+	"refreshPodIfPresent":               36,
+	"getCachedPod":                      37,
 }
 
 func c19CallSeq(fd *ast.FuncDecl) []int {
